@@ -19,6 +19,7 @@ Oracles (from the property statement):
 import itertools
 import math
 import random
+import re
 
 import pyglove as pg
 from pyglove.ext import evolution as ev
@@ -80,12 +81,18 @@ SPACES = [
      'd=pg.permutate([1, 2, 3]), e=pg.manyof(2, [1, 2, 3], distinct=False), g=Genome())'),
 ]
 
+# Spaces used by single drivers only (not part of the SPACES sweep).
+EXTRA_SPACES = [
+    ('float-bounds', 'pg.Dict(u=pg.floatv(0.0, 0.1), v=pg.floatv(-0.3, 0.7), z=pg.floatv(5.0, 5.0), '
+     't=pg.floatv(-1.1, -0.1))'),
+]
+
 _SPEC_CACHE = {}
 
 
 def space(name):
   if name not in _SPEC_CACHE:
-    src = dict(SPACES)[name]
+    src = dict(SPACES + EXTRA_SPACES)[name]
     _SPEC_CACHE[name] = pg.dna_spec(eval(src, dict(pg=pg, Genome=Genome)))  # pylint: disable=eval-used
   return _SPEC_CACHE[name]
 
@@ -95,7 +102,7 @@ HDR = ('import pyglove as pg\nfrom pyglove.ext.evolution import mutators, recomb
 
 
 def spec_src(name):
-  return f'S = space({name!r})  # pg.dna_spec({dict(SPACES)[name]})\n'
+  return f'S = space({name!r})  # pg.dna_spec({dict(SPACES + EXTRA_SPACES)[name]})\n'
 
 
 # ---------------------------------------------------------------------------
@@ -358,7 +365,20 @@ EXC_CLASSES = [
 ]
 
 
+_RANGE_MSG = re.compile(r'be no (?:less|greater) than ([-+0-9.eE]+)\s+Encountered:? ([-+0-9.eE]+)')
+
+
 def exc_class(e):
+  m = _RANGE_MSG.search(str(e))
+  if m:
+    # A float decision outside its range: by a rounding error, or grossly?
+    try:
+      bound, got = float(m.group(1).rstrip('.')), float(m.group(2).rstrip('.'))
+      if abs(got - bound) <= 1e-9 * max(1.0, abs(bound)):
+        return 'float-rounding-escapes-range'
+    except ValueError:
+      pass
+    return 'float-out-of-range'
   for sub, tag in EXC_CLASSES:
     if sub in str(e):
       return tag
@@ -389,7 +409,8 @@ def exercise(rec, opname, op_src, name, pop, *, step=0, seeded=True, key=(),
   except Exception as e:  # pylint: disable=broad-except
     tag = exc_class(e)
     fam = family
-    if tag in ('zero-total-weight', 'missing-conditional-decision') and (
+    if tag in ('zero-total-weight', 'missing-conditional-decision',
+               'float-rounding-escapes-range') and (
         'recombinators.' in op_src):
       fam = 'recombinators.PointWise'   # one id per defect, also inside pipelines
     rec.case(f'{fam}.call/{tag}', key, False,
@@ -1479,15 +1500,16 @@ class WItem(Item):
 
 
 def _n_values(r, size, quick):
+  """(source of n, step) pairs; `lambda step: step` sweeps integer n cheaply."""
   ints = list(range(0, 3 * size + 3))
-  if quick and len(ints) > 9:
-    ints = ints[:6] + r.sample(ints[6:], 3)
-  out = [(repr(n), 0) for n in ints]
-  out += [(s, 0) for s in ('None', '0.0', '0.25', '0.34', '0.5', '0.75', '1.0')]
-  out += [(f'(lambda step: step * {size} + 1)', st) for st in (0, 1, 2)]
-  out += [('(lambda step: 0.25 * (step % 5))', st) for st in (1, 2, 3, 4)]
-  out.append(('50', 0))
-  return out
+  if quick and size > 4:
+    ints = ints[:2 * size + 2] + sorted(r.sample(ints[2 * size + 2:], 3))
+  sweep = [('(lambda step: step)', n) for n in ints]
+  lit = [(repr(n), 0) for n in ints] + [('50', 0)]
+  other = [(s, 0) for s in ('None', '0.0', '0.25', '0.34', '0.5', '0.75', '1.0')]
+  other += [(f'(lambda step: step * {size} + 1)', st) for st in (1, 2)]
+  other += [('(lambda step: 0.25 * (step % 5))', st) for st in (1, 2, 3)]
+  return sweep, lit, other
 
 
 def drv_weighted(tier, seed):
@@ -1495,134 +1517,175 @@ def drv_weighted(tier, seed):
   quick = tier == 'quick'
   rec = Recorder(
       'C14', 'weight-driven operators over the space of weight vectors: documented '
-      'number, members only, zero weight never chosen, proportionality',
+      'number, members only, zero weight never chosen, proportionality, closure',
       scope='selectors Proportional/Sample on populations of 1..8 items (non-DNA and DNA '
       'with fitness as weight) x weight vectors (uniform, ramps, geometric, single non-zero, '
       'one light/heavy/zero item at every position, two levels, 1e18 ratio; palette '
       '{0,.01,.35,.5,1,2,3,10}^size exhaustive for size<=3, random above; random floats/ints) '
-      'x n in 0..3*size+2, fractions, None, n(step) x 5 signatures of the weights callable; '
-      'compositions (>>, +, *, [], ~) of a weighted selector; recombinators Sample/'
-      'WeightedAverage x weight vectors x 2-4 parents')
+      'x n in 0..3*size+2 (literal and scheduled), 50, fractions, None x 5 signatures of the '
+      'weights callable; compositions (>>, +, *, [], ~) of a weighted selector; recombinators '
+      'Sample/Average/WeightedAverage x weight vectors x 2-4 parents, incl. all parents on a '
+      'bound of a float range')
   r = rng(seed, 'c14-weighted')
   sizes = [1, 2, 3, 4, 5, 6, 8]
-  budget_per_vec = 5 if quick else 14
+
+  def case(cid, key, ok, msg='', wit=''):
+    # (messages and witnesses are only built for failing cases)
+    if ok:
+      rec.case(cid, key, True)
+    else:
+      rec.case(cid, key, False, msg() if callable(msg) else msg, wit() if callable(wit) else wit)
+
   flat = space('flat')
   for size in sizes:
     vecs = weight_vectors(r, size, quick)
+    sweep, lit, other = _n_values(r, size, quick)
     for vi, (fam, w) in enumerate(vecs):
-      nvals = _n_values(r, size, quick)
-      # Structured families get every n; palette/random vectors a sample.
+      # Structured families get every integer n; palette/random vectors a sample.
       if fam in ('palette', 'random-float', 'random-int'):
-        nvals = r.sample(nvals, min(budget_per_vec, len(nvals)))
+        nvals = r.sample(sweep, min(3 if quick else 10, len(sweep)))
+        nvals += [r.choice(lit + other)] if quick else r.sample(lit + other, 5)
+      else:
+        nvals = sweep + r.sample(lit, 2 if quick else 6) + r.sample(other, 3 if quick else len(other))
       use_dna = (vi % 9 == 0 and size <= 5)   # (witness length)
       if use_dna:
         pop = [pg.random_dna(flat, r) for _ in range(size)]
         for d, x in zip(pop, w):
           ebase.set_fitness(d, x)
         psrc = pop_src('flat', pop, fitness=True)
-        sigs = [('by-fitness', 'lambda xs: [base.get_fitness(x) for x in xs]')]
+        sig, wsrc = 'by-fitness', 'lambda xs: [base.get_fitness(x) for x in xs]'
       else:
         pop = [WItem(i, x) for i, x in enumerate(w)]
         psrc = f'pop = {pop!r}\n'
-        sigs = [W_SIGNATURES[vi % len(W_SIGNATURES)]]
+        sig, wtmpl = W_SIGNATURES[vi % len(W_SIGNATURES)]
+        wsrc = wtmpl.format(w=repr(w))
       zero = [p for p, x in zip(pop, w) if x == 0.0]
+      zero_idx = [i for i, x in enumerate(w) if x == 0.0]
+      made = {}
       for ni, (n_src, step) in enumerate(nvals):
         npr = _nprime(eval(n_src), size, step)  # pylint: disable=eval-used
         rcls = rounding_class(w, npr)
-        for sig, wtmpl in sigs:
-          wsrc = wtmpl.format(w=repr(w))
-          ops = [('Proportional', f'selectors.Proportional({n_src}, {wsrc})')]
-          if (vi + ni) % 4 == 0:
-            ops.append(('Sample', f'selectors.Sample({n_src}, {wsrc}, seed={seed + ni})'))
-          for cls, src in ops:
-            key = (cls, fam, size, tuple(w), n_src, step, sig)
-            wpre = HDR + psrc + f'op = {src}\nout = op(pop, step={step})\n'
-            fz = Frozen(pop)
+        ops = [('Proportional', f'selectors.Proportional({n_src}, {wsrc})')]
+        if (vi + ni) % 8 == 0:
+          ops.append(('Sample', f'selectors.Sample({n_src}, {wsrc}, seed={seed + ni % 3})'))
+        for cls, src in ops:
+          key = (cls, fam, size, tuple(w), n_src, step, sig)
+          wpre = lambda src=src, step=step: HDR + psrc + f'op = {src}\nout = op(pop, step={step})\n'
+          fz = Frozen(pop)
+          try:
+            # (a seeded operator is rebuilt for every call; Proportional is unseeded)
+            op = made.get(src) if cls == 'Proportional' else None
+            if op is None:
+              op = made[src] = make(src)
+            out = op(pop, step=step)
+            assert isinstance(out, list), f'output is {type(out).__name__}'
+          except Exception as e:  # pylint: disable=broad-except
+            rec.case(f'selectors.{cls}.call/{rcls}', key, False,
+                     f'unexpected {type(e).__name__}: {e}', wpre())
+            continue
+          case(f'selectors.{cls}.members-only', key, all(_isin(o, pop) for o in out),
+               lambda: f'output {out!r} has non-members of the input'[:400],
+               lambda: wpre() + 'assert all(any(o is p for p in pop) for o in out)')
+          cid = (f'selectors.{cls}.documented-count/{rcls}' if cls == 'Proportional'
+                 else f'selectors.{cls}.documented-count')
+          case(cid, key, len(out) == npr,
+               lambda: f'{len(out)} outputs, documented {npr} (weights {w}, n={n_src}, step={step})',
+               lambda: wpre() + f'assert len(out) == {npr}, len(out)')
+          case(f'selectors.{cls}.zero-weight-never-selected', key,
+               not (zero and any(_isin(o, zero) for o in out)),
+               lambda: f'item with weight 0 was selected (weights {w})',
+               lambda: wpre() + f'assert not any(o is pop[i] for o in out for i in {zero_idx})')
+          d = fz.diff()
+          case(f'selectors.{cls}.inputs-unchanged', key, d is None, d,
+               lambda: wpre() + f'assert_unchanged(lambda p: ({src})(p, step={step}), pop)')
+          if cls == 'Sample' or not quick or ni % 3 == 0:
             try:
-              out = make(src)(pop, step=step)
-              assert isinstance(out, list), f'output is {type(out).__name__}'
-            except Exception as e:  # pylint: disable=broad-except
-              rec.case(f'selectors.{cls}.call/{rcls}', key, False,
-                       f'unexpected {type(e).__name__}: {e}', wpre)
-              continue
-            rec.case(f'selectors.{cls}.members-only', key, all(_isin(o, pop) for o in out),
-                     f'output {out!r} has non-members of the input'[:400],
-                     wpre + 'assert all(any(o is p for p in pop) for o in out)')
-            cid = (f'selectors.{cls}.documented-count/{rcls}' if cls == 'Proportional'
-                   else f'selectors.{cls}.documented-count')
-            rec.case(cid, key, len(out) == npr,
-                     f'{len(out)} outputs, documented {npr} (weights {w}, n={n_src}, step={step})',
-                     wpre + f'assert len(out) == {npr}, len(out)')
-            rec.case(f'selectors.{cls}.zero-weight-never-selected', key,
-                     not any(_isin(o, zero) for o in out),
-                     f'item with weight 0 was selected (weights {w})',
-                     wpre + f'assert not any(o is pop[i] for o in out for i in {[i for i, x in enumerate(w) if x == 0.0]})')
-            d = fz.diff()
-            rec.case(f'selectors.{cls}.inputs-unchanged', key, d is None, d,
-                     wpre + f'assert_unchanged(lambda p: ({src})(p, step={step}), pop)')
-            try:
-              out2 = make(src)(pop, step=step)
+              out2 = (op if cls == 'Proportional' else make(src))(pop, step=step)
               same = _ids(out) == _ids(out2)
             except Exception:  # pylint: disable=broad-except
               same = False
-            rec.case(f'selectors.{cls}.deterministic', key, same,
-                     'same operator, same input, different selection',
-                     wpre + f'assert list(map(id, out)) == list(map(id, ({src})(pop, step={step})))')
-            if cls != 'Proportional':
-              continue
-            counts = [sum(1 for o in out if o is p) for p in pop]
-            if len(out) == npr:
-              # (a wrong total is reported above, once)
-              qs = integral_quotas(w, npr)
-              if qs is not None:
-                rec.case('selectors.Proportional.exact-when-quotas-integral', key, counts == qs,
-                         f'copies per item {counts}, exact proportional shares {qs} (weights {w})',
-                         wpre + f'assert [sum(o is p for o in out) for p in pop] == {qs}')
-              bad = [(i, j) for i in range(size) for j in range(size)
-                     if w[i] > w[j] and counts[i] < counts[j]]
-              rec.case('selectors.Proportional.monotone-in-weight', key, not bad,
-                       f'copies per item {counts} for weights {w}: a heavier item got fewer copies {bad[:3]}',
-                       wpre + 'c = [sum(o is p for o in out) for p in pop]\n'
-                       f'w = {w}\nassert not [(i, j) for i in range({size}) for j in range({size}) if w[i] > w[j] and c[i] < c[j]], c')
-            # Compositions: equal to the list operation applied to the
-            # selector's own output (the selector itself is judged above).
-            if ni % 3 == 0:
-              k = 1 + (vi + ni) % 4
-              comps = [
-                  (f'({src} >> selectors.First({k}))', lambda o: o[:k]),
-                  (f'({src} >> selectors.Last({k}))', lambda o: o[len(o) - min(k, len(o)):]),
-                  (f'({src} + selectors.First(1))', lambda o: o + pop[:1]),
-                  (f'(selectors.Last(1) + {src})', lambda o: pop[-1:] + o),
-                  (f'({src} * 2)', lambda o: o + o),
-                  (f'{src}[1:{k + 1}]', lambda o: o[1:k + 1]),
-                  (f'(~{src})', lambda o: [p for p in pop if not _isin(p, o)]),
-                  (f'({src} >> base.Identity())', lambda o: list(o)),
-              ]
-              csrc, ref = comps[(vi + ni // 3) % len(comps)]
-              ckey = (csrc, fam, size, tuple(w), step)
-              cw = HDR + psrc + f'op = {csrc}\nout = op(pop, step={step})\n'
-              fz = Frozen(pop)
-              want = ref(list(out))
-              try:
-                got = make(csrc)(pop, step=step)
-                ok, msg = _ids(got) == _ids(want), f'got items {_flat_idx(got, pop)}, reference {_flat_idx(want, pop)}'
-              except Exception as e:  # pylint: disable=broad-except
-                ok, msg = False, f'unexpected {type(e).__name__}: {e}'
-              rec.case('pipeline.weighted-selector.output', ckey, ok, msg,
-                       cw + f'assert [pop.index(x) for x in out] == {_flat_idx(want, pop)}')
-              d = fz.diff()
-              rec.case('pipeline.weighted-selector.inputs-unchanged', ckey, d is None, d,
-                       cw + f'assert_unchanged(lambda p: ({csrc})(p, step={step}), pop)')
+            case(f'selectors.{cls}.deterministic', key, same,
+                 'same operator (and seed), same input, different selection',
+                 lambda: wpre() + f'assert list(map(id, out)) == list(map(id, ({src})(pop, step={step})))')
+          if cls != 'Proportional':
+            continue
+          counts = [sum(1 for o in out if o is p) for p in pop]
+          if len(out) == npr:
+            # (a wrong total is reported above, once)
+            qs = integral_quotas(w, npr)
+            if qs is not None:
+              case('selectors.Proportional.exact-when-quotas-integral', key, counts == qs,
+                   lambda: f'copies per item {counts}, exact proportional shares {qs} (weights {w})',
+                   lambda: wpre() + f'assert [sum(o is p for o in out) for p in pop] == {qs}')
+            bad = [(i, j) for i in range(size) for j in range(size)
+                   if w[i] > w[j] and counts[i] < counts[j]]
+            case('selectors.Proportional.monotone-in-weight', key, not bad,
+                 lambda: f'copies per item {counts} for weights {w}: a heavier item got fewer copies {bad[:3]}',
+                 lambda: wpre() + 'c = [sum(o is p for o in out) for p in pop]\n'
+                 f'w = {w}\nassert not [(i, j) for i in range({size}) for j in range({size}) '
+                 'if w[i] > w[j] and c[i] < c[j]], c')
+          # Compositions: equal to the list operation applied to the
+          # selector's own output (the selector itself is judged above).
+          if (vi + ni) % 8 == 3:
+            k = 1 + (vi + ni) % 4
+            comps = [
+                (f'({src} >> selectors.First({k}))', lambda o: o[:k]),
+                (f'({src} >> selectors.Last({k}))', lambda o: o[len(o) - min(k, len(o)):]),
+                (f'({src} + selectors.First(1))', lambda o: o + pop[:1]),
+                (f'(selectors.Last(1) + {src})', lambda o: pop[-1:] + o),
+                (f'({src} * 2)', lambda o: o + o),
+                (f'{src}[1:{k + 1}]', lambda o: o[1:k + 1]),
+                (f'(~{src})', lambda o: [p for p in pop if not _isin(p, o)]),
+                (f'({src} >> base.Identity())', list),
+            ]
+            csrc, ref = comps[(vi + ni // 8) % len(comps)]
+            ckey = (csrc, fam, size, tuple(w), step)
+            cw = lambda: HDR + psrc + f'op = {csrc}\nout = op(pop, step={step})\n'
+            fz = Frozen(pop)
+            want = ref(list(out))
+            try:
+              got = make(csrc)(pop, step=step)
+              ok = _ids(got) == _ids(want)
+              msg = lambda: f'got items {_flat_idx(got, pop)}, reference {_flat_idx(want, pop)}'
+            except Exception as e:  # pylint: disable=broad-except
+              ok, msg = False, f'unexpected {type(e).__name__}: {e}'
+            case('pipeline.weighted-selector.output', ckey, ok, msg,
+                 lambda: cw() + f'assert [pop.index(x) for x in out] == {_flat_idx(want, pop)}')
+            d = fz.diff()
+            case('pipeline.weighted-selector.inputs-unchanged', ckey, d is None, d,
+                 lambda: cw() + f'assert_unchanged(lambda p: ({csrc})(p, step={step}), pop)')
+  # Numeric recombinators when all parents sit on a bound of a float range
+  # (every convex combination of the parents is that very bound).
+  name = 'float-bounds'
+  S = space(name)
+  lo = [e.min_value for e in S.elements]
+  hi = [e.max_value for e in S.elements]
+  for k in (2, 3, 4):
+    vecs = [fw for fw in weight_vectors(r, k, True) if fw[0] not in ('palette', 'random-int')]
+    thirds = ('thirds', [1.0 / 3] * k)
+    picked = [('uniform', [1.0] * k), thirds, ('ramp', [float(i + 1) for i in range(k)])] + r.sample(vecs, min(len(vecs), 3 if quick else 40))
+    for vi, (fam, w) in enumerate(picked):
+      for bname, vals in (('all-at-max', hi), ('all-at-min', lo),
+                          ('each-at-a-bound', [r.choice(p) for p in zip(lo, hi)])):
+        ps = []
+        for _ in range(k):
+          d = pg.DNA(None, [pg.DNA(v) for v in vals])
+          d.use_spec(S)
+          ps.append(d)
+        srcs = [('WeightedAverage', f'recombinators.WeightedAverage(lambda xs: {w!r})')]
+        if vi == 0:
+          srcs.append(('Average', 'recombinators.Average()'))
+        for cls, src in srcs:
+          exercise(rec, f'recombinators.{cls}', src, name, ps, seeded=True, key=(bname,),
+                   min_out=1, max_out=k, family='recombinators.PointWise')
   # Weight-driven recombinators over weight vectors (no zero-total vectors:
   # that degenerate class is exercised, and judged, by drv_recombinators).
   for name in ('floats', 'flat', 'multi-ds'):
-    S = space(name)
     base_pop = parents_of(name, r, 6)
     for k in (2, 3, 4):
-      vecs = [fw for fw in weight_vectors(r, k, True) if fw[0] != 'palette' or r.random() < (0.05 if quick else 0.3)]
-      for vi, (fam, w) in enumerate(vecs):
-        if quick and vi % 3 != (seed + k) % 3:
-          continue
+      vecs = [fw for fw in weight_vectors(r, k, True) if fw[0] != 'palette']
+      picked = r.sample(vecs, min(len(vecs), 2 if quick else 40))
+      for vi, (fam, w) in enumerate(picked):
         ps = r.sample(base_pop, k)
         for cls, src in (('Sample', f'recombinators.Sample(lambda xs: {w!r}, seed={seed})'),
                          ('WeightedAverage', f'recombinators.WeightedAverage(lambda xs: {w!r})')):
